@@ -35,7 +35,7 @@ const bridgeConn = ModPath + "/utils/tcpbridge/connection"
 
 // bridgeSite is one function that bridges two connections.
 type bridgeSite struct {
-	Fn     *ssa.Function   // the function containing the go statements
+	Fn     *ssa.Function     // the function containing the go statements
 	Copies []ssa.Instruction // io.Copy calls, one per goroutine
 	Gos    []*ssa.Function
 }
@@ -178,6 +178,12 @@ func runC15(c *Ctx) {
 		}
 		c.Check("C15.E", "Read:keeps-remainder", p, rd.Pos(), okRem, "after handing out count bytes the buffer is re-sliced from count and count is returned", "the bytes not yet handed out are not kept as bufferedMsg[count:] with count being the returned length: bytes are lost or duplicated when the reader's buffer is smaller than a message")
 	}
+
+	c.Rule("C15.V", "each bridged connection has its own variables; the pass-through proxy is the stock single-host proxy", 4)
+	ruleLoopSharedCapture(c, p, "C15.V", 1, "utils/tcpbridge/tcp-bridge-frontend", "utils/tcpbridge/tcp-bridge-backend", "utils/tcpbridge/connection")
+	rulePlainSingleHostProxy(c, p, "C15.V", "utils/tcpbridge/tcp-bridge-backend.main", map[string]string{"FlushInterval": "streaming", "Transport": "h2c transport choice"})
+	c.Rule("C15.M", "decoded bytes live in connection-owned buffers", 1)
+	rulePooledMemory(c, p, "C15.M", "utils/tcpbridge/connection", "utils/tcpbridge/tcp-bridge-frontend", "utils/tcpbridge/tcp-bridge-backend")
 
 	// ---- C15.L: no size limit that the unsegmented Write can exceed
 	c.Rule("C15.L", "no websocket message-size limit on bridge connections (Write sends each write as one message of any length)", 1)
@@ -386,6 +392,8 @@ func runC16(c *Ctx) {
 	p := c.Progs["mod"]
 	c.Rule("C16.K", "completion of either copy direction closes the pair", 4)
 	c.Rule("C16.D", "every acquired connection is released on exit", 4)
+	c.Rule("C16.A", "closing is orderly and cannot be blocked: no abortive-close socket option, Close never waits for a lock held across blocking I/O", 2)
+	c16Orderly(c, p)
 	sites := bridgeSites(p)
 	if len(sites) < 2 {
 		c.Bad("C16.K", "bridging-functions", p, 0, fmt.Sprintf("found %d bridging functions (2 confirmed by hand)", len(sites)))
@@ -468,4 +476,93 @@ func postDominatesReturn(fn *ssa.Function, i ssa.Instruction) bool {
 		}
 	}
 	return true
+}
+
+// c16Orderly: (1) no bridge code arms SO_LINGER>=0 (Close would then discard
+// unsent data and reset the peer instead of delivering data + FIN); (2) the
+// net.Conn wrappers of the bridge either inherit Close from the wrapped
+// connection or declare one that takes no lock which another method holds
+// while it is blocked in network I/O (the Close that should unblock the
+// pending Read would wait for that very Read).
+func c16Orderly(c *Ctx, p *Prog) {
+	pkgs := []string{"utils/tcpbridge/connection", "utils/tcpbridge/tcp-bridge-frontend", "utils/tcpbridge/tcp-bridge-backend"}
+	ncalls := 0
+	var linger []ssa.Instruction
+	for _, pk := range pkgs {
+		for _, fn := range p.FuncsIn(pk) {
+			EachInstr(fn, func(i ssa.Instruction) {
+				cc := CallOf(i)
+				if cc == nil {
+					return
+				}
+				ncalls++
+				n := CalleeName(cc)
+				if strings.HasSuffix(n, ").SetLinger") {
+					a := Args(cc)
+					if v, ok := ConstInt(a[len(a)-1]); !(ok && v < 0) {
+						linger = append(linger, i)
+					}
+				}
+			})
+		}
+	}
+	c.Check("C16.A", "close:no-abortive-linger", p, posOf(linger), len(linger) == 0 && ncalls > 30, fmt.Sprintf("%d call sites of the bridge inspected: SO_LINGER is left at its default, so Close() sends queued data followed by FIN", ncalls), "SetLinger with a non-negative timeout at "+posStr(p, firstOf(linger))+": Close() on that connection discards data still queued in the kernel and resets the peer, so bytes sent just before the other side closed never arrive and the peer sees ECONNRESET instead of end-of-stream")
+	// net.Conn wrappers
+	ls := ComputeLocksets(p)
+	nw := 0
+	for _, t := range p.NamedTypesIn("utils/tcpbridge/connection") {
+		ms := p.MethodsOf(t)
+		var closeFn *ssa.Function
+		hasRead := false
+		for _, m := range ms {
+			if m.Name() == "Close" {
+				closeFn = m
+			}
+			if m.Name() == "Read" || m.Name() == "Write" {
+				hasRead = true
+			}
+		}
+		if !hasRead {
+			continue
+		}
+		nw++
+		tn := NamedTypeRel(t)
+		// locks held across blocking I/O in any method
+		blocking := map[string]string{}
+		for _, m := range ms {
+			for _, fn := range WithClosures(m) {
+				EachInstr(fn, func(i ssa.Instruction) {
+					cc := CallOf(i)
+					if cc == nil {
+						return
+					}
+					n := CalleeName(cc)
+					short := n[strings.LastIndex(n, ".")+1:]
+					switch short {
+					case "ReadMessage", "WriteMessage", "NextReader", "NextWriter", "Read", "Write", "ReadFull", "Copy", "ReadJSON", "WriteJSON":
+						for l := range ls.Held(i) {
+							blocking[l] = FuncName(m) + " holds it across " + short + " at " + p.Pos(i.Pos())
+						}
+					}
+				})
+			}
+		}
+		if closeFn == nil || len(closeFn.Blocks) == 0 {
+			c.OK("C16.A", "close:"+tn+":never-waits-for-io", p, 0, tn+" declares no Close of its own: closing goes straight to the wrapped connection, which unblocks pending reads and writes")
+			continue
+		}
+		bad := ""
+		EachInstr(closeFn, func(i ssa.Instruction) {
+			if id, op := lockOp(i); op == 1 {
+				if why, ok := blocking[strings.TrimSuffix(id, "(R)")]; ok {
+					bad = "Close acquires " + id + " at " + p.Pos(i.Pos()) + "; " + why
+				}
+			}
+		})
+		c.Check("C16.A", "close:"+tn+":never-waits-for-io", p, closeFn.Pos(), bad == "", tn+".Close takes no lock that another method holds while blocked in network I/O", tn+": "+bad+": the Close that must unblock a pending Read waits for that Read, so closeBoth() hangs, the websocket is never closed and the far peer never sees end-of-stream")
+	}
+	if nw == 0 {
+		c.Unk("C16.A", "close:wrappers", p, 0, "no net.Conn wrapper type (Read/Write methods) found in utils/tcpbridge/connection")
+	}
+	// closeBoth itself must not be conditional on a lock either: both Close calls run unconditionally inside the Once
 }
